@@ -1,6 +1,6 @@
 """C11 type strings parse back; obj/attr snprintf obey the length contract; compare_types tables."""
 from prog import Program
-import snp, tab, progloops
+import snp, tab, progloops, union
 
 LENGTH_FUNCS = ["hwloc__osdev_type_snprintf_short", "hwloc__osdev_type_snprintf_normal", "hwloc_obj_type_snprintf", "hwloc_obj_attr_snprintf"]
 
@@ -16,6 +16,9 @@ def run(chk, tier):
     st = r.run(chk)
     chk.floor("R-SNP", "producer call sites in traversal.c", st["producers"], 15)
     chk.floor("R-SNP", "cursor advance sites in traversal.c", st["advances"], 8)
+    chk.rule("R-UNION", "the type-specific attribute union obj->attr is accessed only under a matching obj->type: every self-discriminating function is explored once per object type (21 values, product for two objects) by seeded constant propagation; guards are evaluated, not pattern-matched")
+    nun, nuf = union.run(chk, P, units=('traversal.c',))
+    chk.floor("R-UNION", "union accesses judged", nun, 30)
     chk.rule("R-SNPSIZE", "snprintf into a fixed array uses a size <= sizeof(array)")
     n = snp.fixed_buffers(chk, P, ["traversal.c"])
     chk.floor("R-SNPSIZE", "fixed-buffer snprintf sites in traversal.c", n, 4)
@@ -27,7 +30,8 @@ def run(chk, tier):
     n2 = tab.public_kind_wrappers(chk, P)
     n3 = tab.type_strings(chk, P)
     chk.floor("R-TAB", "folded witnesses", n1 + n2 + n3, 800)
-    chk.decided += ["printed type text (type_string of all types; every OS-device name short/long/bracketed/paired; cache/group/bridge/PCI literals) is accepted by hwloc_type_sscanf with the same type and attributes (exhaustive fold)",
+    chk.decided += ['the printers read type-specific attributes only under the matching object type',
+                    "printed type text (type_string of all types; every OS-device name short/long/bracketed/paired; cache/group/bridge/PCI literals) is accepted by hwloc_type_sscanf with the same type and attributes (exhaustive fold)",
                     "type/attr snprintf terminate, never write past size, NUL-terminate, return the untruncated length (cursor typestate + loop progress)",
                     "hwloc_compare_types antisymmetric, Machine highest, PU deepest, consistent with kinds; exactly one kind per type (exhaustive fold over 20x20)"]
     chk.undecided += ["that all objects of one level carry equal type attributes (C01)"]
